@@ -39,6 +39,7 @@ type Engine struct {
 	seed       int
 	workers    int
 	verbose    bool
+	tier       string
 }
 
 type HarnessSpec struct {
